@@ -26,6 +26,8 @@ Unmodified(r) == LET A == DecO(r.pre)
                  IN /\ r.exc = ""
                     /\ FullEq(A, B) /\ A.maxT = B.maxT /\ A.maxL = B.maxL
                     /\ r.scale_pre = r.scale_post /\ r.pre.extra = r.post.extra /\ r.pre.nkeys = r.post.nkeys
+                    \* the registry with every feature's metadata and the key roles (digest computed by the harness)
+                    /\ r.fpre = r.fpost
 \* ---- C14 --------------------------------------------------------------------------
 \* what each format carries: csv = nodes, edges, time, position, track id; geff adds lineage,
 \* the loaded features (area, iou) and the array; the internal format adds scale and registry
@@ -61,7 +63,7 @@ SubsetOK(r) ==
     IN /\ r.exc = ""
        /\ Rng(r.out_nodes) = keep /\ Len(r.out_nodes) = Cardinality(keep)
        /\ {<<e[1], e[2]>> : e \in Rng(r.out_edges)} = {e \in O.E : e[1] \in keep /\ e[2] \in keep}
-       /\ ((HasSeg /\ r.fmt = "geff") =>
+       /\ ((HasSeg /\ r.fmt \in {"geff", "geff_ow"}) =>
              /\ r.dangling = 0
              /\ \A q \in Pix : r.out_seg[q] = (IF O.seg[q] \in keep THEN O.seg[q] ELSE 0))
        \* the tif written next to a CSV carries the kept nodes' masks, labelled by track id
